@@ -279,8 +279,13 @@ def run_cbmc(job, wd, tier, inputs):
             if re.search(rx, nm): bounds[nm] = max(bounds[nm], b)
     tmo = job['timeout'][tier] if isinstance(job.get('timeout'), dict) else job.get('timeout', 600)
     rounds = []
+    deadline = time.time() + tmo      # the job's solver budget covers ALL refinement rounds together
     for rnd in range(job.get('refine_rounds', 8)):
-        res = run_cbmc_once(job, wd, tier, cfiles, inc, dfl, bounds, names, tmo)
+        left = deadline - time.time()
+        if left < 20:
+            res = {'status': 'TIMEOUT', 'wall_s': round(tmo, 1), 'cmd': '', 'loops': len(names), 'unwindset': dict(bounds), 'failed': [], 'traces': {}, 'prop_descs': [], 'n_properties': 0}
+            break
+        res = run_cbmc_once(job, wd, tier, cfiles, inc, dfl, bounds, names, left)
         rounds.append({'wall_s': res['wall_s'], 'status': res['status'], 'rss_mb': res.get('rss_mb')})
         if res['status'] != 'DONE': break
         grow = []
